@@ -90,6 +90,20 @@ Fixpoint exec (f : fw) (l : list act) : fw * list msg * option death :=
       end
   end.
 
+(* what the event log of the process shows: entries of fixtures/body and the mock tally *)
+Inductive tev := TvPhase (ph : phase) | TvTally.
+Definition tev_of (a : act) : list tev :=
+  match a with Mark ph => [TvPhase ph] | ATally => [TvTally] | _ => [] end.
+Fixpoint trace (f : fw) (l : list act) : list tev :=
+  match l with
+  | [] => []
+  | a :: l' =>
+      match step f a with
+      | (_, _, Some _) => tev_of a
+      | (f1, _, None) => tev_of a ++ trace f1 l'
+      end
+  end.
+
 (* ---------------------------------------------------------------------------------- *)
 (* tests and suites *)
 Record test := mktest {
@@ -410,6 +424,17 @@ Definition count_msgs (l : list msg) : cnt :=
 Definition has_skip (l : list msg) : bool :=
   existsb (fun m => match m with MSkipped => true | _ => false end) l.
 
+Definition is_compl_msg (x : msg) : bool := match x with MCompletion => true | _ => false end.
+
+(* abnormal end: killed by a signal at any time, or gone (exit, _exit) before the completion
+   notice was sent; an exit after it is the normal end of a test process *)
+Definition abnormal (m : list msg) (d : option death) : bool :=
+  match d with
+  | None => false
+  | Some (Signal _) => true
+  | Some (Exit _) => negb (existsb is_compl_msg m)
+  end.
+
 (* results of test t run alone: own checks, skipped (xEnsure or skip_test()), abnormal end *)
 Definition own (s : suiteinfo) (t : test) : cnt :=
   if tskip t then mkcnt 0 0 1 0
@@ -419,7 +444,7 @@ Definition own (s : suiteinfo) (t : test) : cnt :=
         let k := count_msgs m in
         let sk := has_skip m in
         mkcnt (passes k) (failures k) (if sk then 1 else 0)
-              (exceptions k + match d with Some _ => 1 | None => 0 end)
+              (exceptions k + (if abnormal m d then 1 else 0))
     end.
 
 (* every test of the tree with the suite that owns it *)
